@@ -289,6 +289,9 @@ def _run_hist(acts):
             'exc': r if st == 'exc' else {'exc': 'Timeout', 'func': '', 'line': 'no result within 10 s'}}
 
 
+_PARTIAL = {}
+
+
 def _prog_inner(item):
     """emulate one program with emul_lines; the lifted assignments are captured at the call emul_lines itself makes"""
     from miasmx.expression import expression as X
@@ -311,6 +314,7 @@ def _prog_inner(item):
             snaps.append(_cells(m, X, values=False))
             return e
         emul_helper.get_instr_expr = wrap
+        _PARTIAL.update(pool0=pool0, cap=cap, snaps=snaps)
         try:
             emul_helper.emul_lines(m, instrs)
         finally:
@@ -336,10 +340,17 @@ def _prog_inner(item):
 
 
 def _run_prog(item):
+    _PARTIAL.clear()
     st, r = irlib.guarded(_prog_inner, item, 60)
     if st == 'ok':
         return r
-    return {'st': st, 'exc': r if st == 'exc' else {'exc': 'Timeout', 'func': '', 'line': 'no result within 60 s'}}
+    out = {'st': st, 'exc': r if st == 'exc' else {'exc': 'Timeout', 'func': '', 'line': 'no result within 60 s'}}
+    if _PARTIAL.get('cap'):
+        # what is known about the instruction that failed: its lifted assignments and the pool before it
+        n = len(_PARTIAL['cap'])
+        out.update(pool0=_PARTIAL['pool0'], cells_bl=_PARTIAL['snaps'][-1], regs=[], cells=[], rbs=[],
+                   instrs=[{'txt': l['txt'], 'rep': l['rep'], 'affs': a} for l, a in zip(item['lines'][:n], _PARTIAL['cap'])])
+    return out
 
 
 # ---------------------------------------------------------------------------------------------
@@ -360,9 +371,11 @@ def hist_envs(acts, rnd, n=NENV):
     return envs
 
 
-def prog_envs(rec, rnd, n=NENV):
+def prog_envs(rec, n=NENV):
     """valuations of the initial symbols under which distinct symbolic bases are >= 2^24 - 2^16 apart and away from
-    the constant addresses (no aliasing the symbolic machine could not know about); everything else boundary/random"""
+    the constant addresses (no aliasing the symbolic machine could not know about); everything else boundary/random.
+    The value of an identifier depends only on (program seed, valuation index, name): a program and its prefixes are
+    judged under the same valuations."""
     idw = {}
     for r in rec['pool0'] + rec['regs']:
         EJ.ids_of(r['e'], idw)
@@ -383,6 +396,7 @@ def prog_envs(rec, rnd, n=NENV):
         ids = {}
         for nm in sorted(idw):
             w = idw[nm]
+            rnd = random.Random('%d/%d/%s' % (rec['seed'], j, nm))
             if nm in GPR_INIT:
                 band = (GPR_INIT.index(nm) + j) % 8
                 top = band * 32 + rnd.randint(1, 30)
@@ -391,7 +405,7 @@ def prog_envs(rec, rnd, n=NENV):
             elif nm in SEGS:
                 v = 0
             elif w == 1:
-                v = (j >> 0) & 1 if nm == 'init_df' else rnd.getrandbits(1)
+                v = (j & 1) if nm == 'init_df' else rnd.getrandbits(1)
             elif rnd.random() < 0.5:
                 v = rnd.choice(irlib.boundary(w))
             else:
@@ -435,8 +449,9 @@ def prog_records(items, rnd, start_id, stats):
             continue
         r = {'id': start_id + i, 't': 'p', 'lines': it['lines'], 'nrb': it['nrb'], 'seed': it['seed']}
         r.update(o)
+        if 'instrs' in o:
+            r['envs'] = prog_envs(r)
         if o['st'] == 'ok':
-            r['envs'] = prog_envs(r, rnd)
             r['nodes'] = sum(EJ.node_count(a) for ins in r['instrs'] for a in ins['affs']) + sum(EJ.node_count(x['e']) for x in r['regs'])
         recs.append(r)
     return recs
@@ -447,7 +462,9 @@ def _strip(r):
     if r['st'] != 'ok':
         if r['t'] == 'h':
             return {'id': r['id'], 't': 'h', 'st': r['st'], 'acts': r['acts'], 'excj': r['excj']}
-        return {'id': r['id'], 't': r['t'], 'st': r['st']}
+        if 'instrs' in r:
+            return {'id': r['id'], 't': 'p', 'st': r['st'], 'part': 1, 'pool0': r['pool0'], 'instrs': r['instrs'], 'cells_bl': r['cells_bl'], 'envs': r['envs'][:1]}
+        return {'id': r['id'], 't': r['t'], 'st': r['st'], 'part': 0}
     drop = ('lines', 'nrb', 'seed', 'nodes', 'exc')
     return {k: v for k, v in r.items() if k not in drop}
 
@@ -503,25 +520,13 @@ def prog_features(r):
     return ','.join(f)
 
 
-def _rb_classes(f):
-    """read-back clauses classified by the read-back's own eval_ExprMem path; None when a path does not explain itself"""
-    paths = sorted(set(f.get('paths', [f.get('path', '')])))
-    if all(p.startswith('overlap') for p in paths):
-        return paths
-    return None
-
-
 def _is_rb(f):
     return f['clause'] == 'C07.readback' or (f['clause'] in ('C07.welltyped', 'C07.width') and f.get('what') == 'readback')
 
 
-def _needs_prefix(f):
-    c = f['clause']
-    if c.startswith('input.'):
-        return False
-    if _is_rb(f):
-        return _rb_classes(f) is None
-    return True
+def _state_diverged(v):
+    """a clause about the STATE (register, pool, exception, non-termination) fails, not only read-backs"""
+    return any(not f['clause'].startswith('input.') and not _is_rb(f) for f in v['v'])
 
 
 def prog_keys(r, f, diverged):
@@ -529,11 +534,11 @@ def prog_keys(r, f, diverged):
     the symbolic state is wrong: the class is then that of its last instruction (features, worst path of its reads)."""
     c = f['clause']
     if c in ('C07.noexc', 'C07.terminates'):
-        k = {'kind': 'program', 'clause': c, 'path': '', 'feat': prog_features(r)}
+        k = {'kind': 'program', 'clause': c, 'path': worst_path(set(f.get('lastpaths', []))) if f.get('lastpaths') else '', 'feat': prog_features(r)}
         k.update(r['exc'])
         return [k]
-    if not diverged:
-        return [{'kind': 'program', 'clause': c, 'path': p, 'feat': ''} for p in _rb_classes(f)]
+    if not diverged:        # registers and pool are right: a pure load failure, classified by the path the load takes
+        return [{'kind': 'program', 'clause': c, 'path': p, 'feat': ''} for p in sorted(set(f.get('paths', [f.get('path', '')])))]
     last = set(f.get('lastpaths', []))
     if _is_rb(f):
         paths = sorted(set(worst_path(last | {p}) for p in set(f.get('paths', [f.get('path', '')]))))
@@ -558,39 +563,40 @@ def _prog_detail(r, mr, f):
 
 
 def report_progs(chk, recs, verdicts, rnd):
-    """A failing read-back whose own path through eval_ExprMem is one of the overlap paths is classified by that path
-    (the pool may be perfectly right).  Everything else (register, pool, exception, read-back on another path) means the
-    symbolic STATE diverged: the program is reduced to its shortest prefix after which such a clause fails (re-emulated,
-    re-judged) and all of them are attributed to that first divergence: class = (clause, worst eval_ExprMem path among
-    the memory reads of the prefix's last instruction, features of that instruction)."""
+    """A record in which only read-backs fail has a right state (registers, pool): each failing read-back is a pure load
+    failure, classified by the path it takes through eval_ExprMem.  If a clause about the state fails (register, pool,
+    exception, non-termination) the program is reduced to its shortest prefix after which the state is wrong
+    (re-emulated, judged under the same valuations) and every failure is attributed to that first divergence:
+    class = (clause, worst eval_ExprMem path among the memory reads of the prefix's last instruction, its features)."""
     byid = {r['id']: r for r in recs}
     todo = []
     for v in sorted(verdicts, key=lambda v: (len(byid[v['id']]['lines']), v['id'])):
         r = byid[v['id']]
+        if _state_diverged(v):
+            todo.append((r, v))
+            continue
         for f in v['v']:
-            if _is_rb(f) and not _needs_prefix(f):
+            if _is_rb(f):
                 for key in prog_keys(r, f, False):
                     chk.violation(key, _prog_detail(r, r, f))
-        if any(_needs_prefix(f) for f in v['v']):
-            todo.append((r, v))
     if not todo:
         return
     items, owner = [], []
     for bi, (r, v) in enumerate(todo):
         for n in range(1, len(r['lines'])):
-            items.append({'lines': r['lines'][:n], 'nrb': r['nrb'], 'seed': r['seed']})
+            items.append({'lines': r['lines'][:n], 'nrb': 0, 'seed': r['seed']})      # the state only: no read-backs
             owner.append((bi, n))
     precs = prog_records(items, rnd, 0, collections.Counter()) if items else []
     pver = {v['id']: v for v in judge(chk, precs)} if precs else {}
     first = {}
     for pr in precs:
         bi, n = owner[pr['id']]
-        if pr['id'] in pver and any(_needs_prefix(g) for g in pver[pr['id']]['v']) and (bi not in first or n < first[bi][0]):
+        if pr['id'] in pver and _state_diverged(pver[pr['id']]) and (bi not in first or n < first[bi][0]):
             first[bi] = (n, pr, pver[pr['id']])
     for bi, (r, v) in enumerate(todo):
         n, mr, mv = first.get(bi, (len(r['lines']), r, v))
         for f in mv['v']:
-            if _needs_prefix(f):
+            if not f['clause'].startswith('input.'):
                 for key in prog_keys(mr, f, True):
                     chk.violation(key, _prog_detail(r, mr, f))
 
